@@ -92,6 +92,14 @@ import (
 //@   assigns wstream(dest)
 //@   assumes len: result == nil ==> written(dest) == old(written(dest)) + encLen(self, msg, version)
 
+// A message decoder reads from its source and returns a message or an error. That it writes to no other pre-existing
+// stream is ASSUMED here (it is what the sharing discipline of C18 establishes for every decoder: writes go only to
+// fresh memory and to memory reachable from the arguments).
+//@ iface Codec.Decode
+//@   prop C04, C05
+//@   assumes-assigns rstream(source)
+//@   ensures nonnil: result1 == nil ==> result0 != nil
+
 // Query options are encoded in place by QUERY, EXECUTE (and BATCH has its own copy); both functions accept nil options.
 //@ func EncodeQueryOptions
 //@   inline
@@ -285,3 +293,13 @@ func lemmaLenError(c *errorCodec, msg Message, version primitive.ProtocolVersion
 //@ func lemmaLenError
 //@   prop C03
 //@   ensures agree: result
+
+// ---- C01: the GLOBAL_TABLES_SPEC flag (one keyspace/table written for all columns, and restored into every column
+// by the decoder) may be set only when all columns really share keyspace and table
+//@ func haveSameTable
+//@   prop C01
+//@   requires elems: forall k int :: 0 <= k && k < len(cols) ==> cols[k] != nil
+//@   invariant #0 first: first == (rangeindex + 1 == 0)
+//@   invariant #0 ref: !first ==> ksName == cols[0].Keyspace && tableName == cols[0].Table
+//@   invariant #0 same: forall k int :: 0 <= k && k < rangeindex + 1 ==> cols[k].Keyspace == cols[0].Keyspace && cols[k].Table == cols[0].Table
+//@   ensures all: result == (len(cols) > 0 && (forall k int :: 0 <= k && k < len(cols) ==> cols[k].Keyspace == cols[0].Keyspace && cols[k].Table == cols[0].Table))
